@@ -3,6 +3,7 @@ package props
 import (
 	"fmt"
 	"github.com/onheap/eval"
+	"strings"
 	"testing"
 
 	"pgregory.net/rapid"
@@ -82,10 +83,18 @@ func hasEffect(n *m.Node) bool {
 func checkC03(c C03Case, r *Rec) *Violation {
 	u := &c.U
 	src := m.Render(c.Tree)
+	// one program in four is written in infix notation (the notation changes nothing about what is evaluated)
+	infix := hash64(src)%4 == 1 && infixSafe(c.Tree, u)
+	if infix {
+		t2 := c.Tree.Clone()
+		normSymbolic(t2) // (symbolic names only in binary position; the oracle reads the program's own dump)
+		src = m.RenderInfix(t2, m.InfixOpts{})
+		r.Class("infix-source")
+	}
 	skippedEffects := false
 	optional := 0
 	for mask := 0; mask < 16; mask++ {
-		run, v := runCfg("C03", u, src, Build{Mask: mask, How: HowMapAll, Costs: c.Costs})
+		run, v := runCfg("C03", u, src, Build{Mask: mask, How: HowMapAll, Costs: c.Costs, Infix: infix})
 		if v != nil {
 			return v
 		}
@@ -167,3 +176,17 @@ var propC03 = Prop[C03Case]{
 
 func TestC03(t *testing.T)       { Run(t, propC03) }
 func TestC03Replay(t *testing.T) { Replay(t, propC03) }
+
+// infixSafe: the program can be written in infix notation without meeting what C15 sets aside (a bare
+// atom as the whole program, variables named like operators).
+func infixSafe(tree *m.Node, u *Universe) bool {
+	if tree.IsLeaf() {
+		return false
+	}
+	for _, v := range u.Vars {
+		if m.IsBuiltin(v.Name) || strings.HasPrefix(v.Name, "c_") {
+			return false
+		}
+	}
+	return true
+}
